@@ -606,6 +606,23 @@ func (c *Ctx) wf(t types.Type, v string) string {
 	return "true"
 }
 
+// wfIfaceRefs: the references an interface value carries (pointer and map
+// payloads) denote objects that exist (<= alloc).  Used for interface-typed
+// parameters with methods (io.Writer, io.Reader): an object allocated later
+// is different from whatever such a parameter holds.
+func (c *Ctx) wfIfaceRefs(v, alloc string) string {
+	var fs []string
+	for _, t := range c.prog.ifaceTypes {
+		switch t.Underlying().(type) {
+		case *types.Pointer, *types.Map, *types.Chan:
+			n := ifaceCtorName(t)
+			pv := fmt.Sprintf("(pv_%s %s)", n[2:], v)
+			fs = append(fs, implies(fmt.Sprintf("((_ is %s) %s)", n, v), and(sx("<=", "0", pv), sx("<=", pv, alloc))))
+		}
+	}
+	return and(fs...)
+}
+
 // wfAt is wf with an explicit allocation counter term.
 func (c *Ctx) wfAt(t types.Type, v string, alloc string) string {
 	return strings.ReplaceAll(c.wf(t, v), "%%ALLOC%%", alloc)
